@@ -140,8 +140,20 @@ async fn scenario(sim: Arc<Sim>, unit: Value, header: String, dur_ms: u64) -> Ob
         tokio::time::sleep(ms(50)).await;
     }
     let t0 = sim.now_us();
+    let typed = unit["typed"].as_bool().unwrap_or(false);
     let fut = async {
-        if via_peer {
+        if typed {
+            // through the typed client every generated client is built on
+            let peer = a.peer(b.peer_id()).expect("peer");
+            let mut client = anemo::rpc::client::Rpc::new(peer);
+            let r: Result<anemo::Response<bytes::Bytes>, anemo::rpc::Status> = client.unary(spec.to_request(), anemo::rpc::codec::IdentityCodec::new("bytes")).await;
+            match r {
+                Ok(resp) => Ok(format!("{:?}", resp.status())),
+                // an error response of the serving side comes back as its status
+                Err(st) if st.status() != anemo::types::response::StatusCode::Unknown => Ok(format!("{:?}", st.status())),
+                Err(st) => Err(format!("{st:?}")),
+            }
+        } else if via_peer {
             let mut peer = a.peer(b.peer_id()).expect("peer");
             let r = peer.rpc(spec.to_request()).await;
             r.map(|resp| format!("{:?}", resp.status())).map_err(|e| format!("{e:#}"))
@@ -218,10 +230,10 @@ fn judge(unit: &Value, header: &str, dur_ms: u64, o: &Obs) -> Judged {
     let resp_arrival = served.map(|(t, _)| 2 * l + t);
     let t_end = o.t_end_us as u128 * 1000;
     let ctx = format!(
-        "[in_callee={:?} out_caller={:?} in_caller={:?} out_callee={:?} header={header:?} handler={} lat={lat_ms}ms user_layer={} via_peer={} stream_busy={stream_busy} header_stamped_by_user_layer={stamp}]",
+        "[in_callee={:?} out_caller={:?} in_caller={:?} out_callee={:?} header={header:?} handler={} lat={lat_ms}ms user_layer={} via_peer={}{} stream_busy={stream_busy} header_stamped_by_user_layer={stamp}]",
         opt(&unit["in_callee"]), opt(&unit["out_caller"]), opt(&unit["in_caller"]), opt(&unit["out_callee"]),
         if dur_ms == u64::MAX { "never".to_string() } else { format!("{dur_ms}ms") },
-        unit["user_layer"], unit["via_peer"]
+        unit["user_layer"], unit["via_peer"], if unit["typed"].as_bool().unwrap_or(false) { " through rpc::client::Rpc::unary" } else { "" }
     );
     enum Exp {
         CallerTimeout(u128),
@@ -341,7 +353,7 @@ impl Check for C11 {
         CheckMeta {
             property: "C11",
             level: "exploration",
-            rule: "full cross product of (callee inbound default, caller outbound default) in {none,0,50ms,200ms}^2, header in a 12-value menu (absent, 0, 1, 60ms, 100ms, 10s, u64::MAX, overflow, non-numeric...), handler duration in {0,30ms,120ms,1s,never}, latency {2,5}ms, with/without a user outbound layer (given to the builder after the configuration at 2 ms latency, before it at 5 ms; which in a third variant stamps the timeout header itself, below the caller's own timeout layer, so that only the serving side can enforce it), via Network::rpc and Peer::rpc; thorough also crosses the settings of the other two ends; each case is one whole-system execution in virtual time compared with the closed-form min() reference; distinct = distinct (expected outcome kind, handler fate)".into(),
+            rule: "full cross product of (callee inbound default, caller outbound default) in {none,0,50ms,200ms}^2, header in a 12-value menu (absent, 0, 1, 60ms, 100ms, 10s, u64::MAX, overflow, non-numeric...), handler duration in {0,30ms,120ms,1s,never}, latency {2,5}ms, with/without a user outbound layer (given to the builder after the configuration at 2 ms latency, before it at 5 ms; which in a third variant stamps the timeout header itself, below the caller's own timeout layer, so that only the serving side can enforce it), via Network::rpc, Peer::rpc and the typed client rpc::client::Rpc::unary on a Peer; thorough also crosses the settings of the other two ends; each case is one whole-system execution in virtual time compared with the closed-form min() reference; distinct = distinct (expected outcome kind, handler fate)".into(),
             assumptions: vec![
                 "virtual time: completion instants are compared to the millisecond; cases whose two candidate deadlines lie within 2 ms of each other are excluded as ties and counted".into(),
             ],
@@ -359,6 +371,10 @@ impl Check for C11 {
             for out_caller in DEFAULTS {
                 for (in_caller, out_callee) in &other {
                     for lat in [2u64, 5] {
+                        if lat == 2 {
+                            // the typed client (what generated clients are made of) on top of a Peer
+                            u.push(json!({"in_callee":in_callee,"out_caller":out_caller,"in_caller":in_caller,"out_callee":out_callee,"lat_ms":lat,"user_layer":false,"via_peer":true,"typed":true}));
+                        }
                         for (user_layer, via_peer, stamp) in [(false, false, false), (true, true, false), (true, false, true)] {
                             let _ = tier;
                             u.push(json!({"in_callee":in_callee,"out_caller":out_caller,"in_caller":in_caller,"out_callee":out_callee,"lat_ms":lat,"user_layer":user_layer,"via_peer":via_peer,"stamp":stamp}));
